@@ -70,6 +70,24 @@ func fitnessFor(rule, epoch, i int, g *genetics.Genome) float64 {
 		return 0
 	case 4:
 		return 1.5
+	case 6:
+		// stagnating: independent of the epoch and of the genome, so the record of the first epoch is
+		// never beaten and delta coding fires every DropOffAge+5 epochs
+		return float64(1+(i*7)%13) + float64(i)*1e-4
+	case 7:
+		// subnormal values: the population average of the adjusted values is a subnormal number whose rounding
+		// error is not relative any more (recorded finding subnormal-fitness-quota-overshoot)
+		if i == 0 {
+			return 8 * math.SmallestNonzeroFloat64
+		}
+		return 4 * math.SmallestNonzeroFloat64
+	case 8:
+		// one value near the top of the range: the youth boost (x AgeSignificance > 1) overflows to +Inf
+		// (recorded finding fitness-overflow-quota-panic)
+		if i == 0 {
+			return 1.7e308
+		}
+		return 1
 	case 5:
 		// mixed signs (C09 allows any assignment with at least one positive value)
 		return float64((i*7+epoch)%13) - 4 + float64(i)*1e-4
@@ -117,6 +135,7 @@ type popOracle struct {
 	usedSp    map[int]bool // species ids that existed and died
 	seenSp    map[int]bool
 	prevMax   int64
+	randomPop bool // NewPopulationRandom population: genomes without common ancestry (recorded finding)
 }
 
 func newPopOracle(prop string, bad func(key, what string)) *popOracle {
@@ -129,7 +148,11 @@ func (po *popOracle) afterEpoch(p *genetics.Population, opts *neat.Options, prev
 	case "C01", "C16":
 		for _, o := range p.Organisms {
 			if e := wfGenome(o.Genotype); e != nil {
-				po.bad("illformed-genome-after-epoch", "population holds an ill-formed genome: "+e.Error())
+				key := "illformed-genome-after-epoch"
+				if po.randomPop && e.Error() == "no genes" {
+					key = "singlepoint-empty-child-unrelated-parents" // the empty child survived (mate-only baby)
+				}
+				po.bad(key, "population holds an ill-formed genome: "+e.Error())
 				break
 			}
 			have := ioNodeIds(o.Genotype)
@@ -286,6 +309,7 @@ func runHistory(r *Run, in *epochInput, cf *CaseFile, caseID int) historyResult 
 	res := historyResult{}
 	bad := func(key, what string) { r.Fail(Failure{Key: key, What: what, Input: in}) }
 	po := newPopOracle(in.Prop, bad)
+	po.randomPop = in.Random
 	start, err := startGenomeFor(in)
 	if err != nil {
 		bad("start-genome-unreadable", err.Error())
@@ -321,6 +345,7 @@ func runHistory(r *Run, in *epochInput, cf *CaseFile, caseID int) historyResult 
 		ex = &genetics.ParallelPopulationEpochExecutor{}
 	}
 	ctx := in.Opts.NeatContext()
+	optsBefore, _ := json.Marshal(in.Opts)
 	for ep := 0; ep < in.Epochs; ep++ {
 		fits := make([]float64, len(pop.Organisms))
 		prev := map[*genetics.Organism]bool{}
@@ -362,10 +387,24 @@ func runHistory(r *Run, in *epochInput, cf *CaseFile, caseID int) historyResult 
 				strings.Contains(eerr.Error(), "without GENES") || strings.Contains(eerr.Error(), "no genes to")) {
 				key = "singlepoint-empty-child-unrelated-parents"
 			}
+			if in.FitRule == 7 && strings.Contains(eerr.Error(), "progeny size") {
+				key = "subnormal-fitness-quota-overshoot"
+			}
+			if in.FitRule == 8 && in.Opts.AgeSignificance > 1 && strings.Contains(eerr.Error(), "panic: runtime error: index out of range [0] with length 0") {
+				key = "fitness-overflow-quota-panic"
+			}
 			if in.Prop == "C02" || in.Prop == "C16" || in.Prop == "C01" {
 				bad(key, fmt.Sprintf("epoch %d failed: %v", ep, eerr))
 			}
 			break
+		}
+		if optsAfter, _ := json.Marshal(in.Opts); string(optsAfter) != string(optsBefore) {
+			// the options are shared by every reproduction goroutine: a write to them is a data race under the
+			// parallel executor and hidden state for the sequential one
+			if in.Prop == "C16" || in.Prop == "C17" {
+				bad("shared-options-written", fmt.Sprintf("NextEpoch changed the caller's options: %s -> %s", optsBefore, optsAfter))
+			}
+			optsBefore = optsAfter
 		}
 		pk := rand.Int63()
 		peeks = append(peeks, pk)
@@ -418,6 +457,9 @@ func (po *popOracle) prevMaxInnov() int64 { return po.prevMax }
 
 // replayOpsOrEpoch dispatches a C01 replay (operator case or epoch history)
 func replayOpsOrEpoch(r *Run, input []byte) error {
+	if handled, err := c01RandReplay(r, input); handled {
+		return err
+	}
 	var probe struct {
 		Op *opSpec `json:"op"`
 	}
